@@ -113,8 +113,38 @@ class Laws:
 def emit(result):
     print('@@RESULT@@' + json.dumps(result, default=str))
 
-def main_entry(impl):
+def model_correspondence(modname, tier, seed, timeout=1800):
+    """tie T2: the property module's `_corr(tier, seed)` runs the REAL code (fresh interpreter, unpatched) and returns rows
+    dict(req=<driver request line>, exp=<canonical real outcome>, meta=...); the same requests are answered by the Lean
+    model through the driver and the two streams are compared literally."""
+    from .. import transval
+    env = dict(os.environ); env['SMV_NOPATCH'] = '1'
+    env['PYTHONPATH'] = ROOT + os.pathsep + REPO + os.pathsep + env.get('PYTHONPATH', '')
+    env['MPLBACKEND'] = 'Agg'
+    r = subprocess.run([sys.executable, '-m', modname, '--corr', tier, str(seed)], cwd=ROOT, capture_output=True, text=True,
+                       env=env, timeout=timeout)
+    marker = '@@RESULT@@'
+    if marker not in r.stdout:
+        raise RuntimeError(f"correspondence generator {modname} failed (exit {r.returncode}):\n{r.stderr[-3000:]}")
+    rows = json.loads(r.stdout.split(marker, 1)[1])
+    answers = transval.lean_driver([x['req'] for x in rows])
+    if len(answers) != len(rows):
+        raise RuntimeError(f"driver answered {len(answers)} lines for {len(rows)} requests")
+    mism = []; kinds = {}
+    for x, a in zip(rows, answers):
+        k = x['req'].split()[1] if len(x['req'].split()) > 1 else '?'
+        kinds[k] = kinds.get(k, 0) + 1
+        if a.strip() != x['exp']:
+            mism.append(dict(request=x['req'], real=x['exp'], model=a.strip(), meta=x.get('meta')))
+    return dict(cases=len(rows), kinds=kinds, mismatches=mism)
+
+def main_entry(impl, corr=None):
     """call from `if __name__ == '__main__'` of a property module"""
+    if len(sys.argv) >= 4 and sys.argv[1] == '--corr' and corr is not None:
+        warnings.filterwarnings('ignore')
+        sys.path.insert(0, REPO)
+        emit(corr(sys.argv[2], int(sys.argv[3])))
+        return
     if len(sys.argv) >= 5 and sys.argv[1] == '--monitor':
         tier, seed, search = sys.argv[2], int(sys.argv[3]), sys.argv[4] == '1'
         warnings.filterwarnings('ignore')
